@@ -489,3 +489,48 @@ Example C08_src_satisfiable :
   convert_to_schema src_ex_s2s src_ex_store 6 (field_obj src_ex_pat_text src_ex_ei src_ex_field) PNone
   = Ok (sch_json src_ex_pat_text (fschema src_ex_ei src_ex_field)).
 Proof. exact side_conditions_satisfiable. Qed.
+
+(* _generate_schema_for_fields_internal and serialize_internal read "<name>._mapper" under the attribute name *)
+Theorem C08_src_submapper_lookup :
+  schema_submapper_lookup = ByAttrName /\ serializer_submapper_lookup = ByAttrName.
+Proof. exact src_submapper_lookup. Qed.
+Print Assumptions C08_src_submapper_lookup.
+
+(* Inline structures (StructureReference) under a nested mapper tree: when the export and the serializer look the
+   "<name>._mapper" entry up under the same name -- which C08_src_submapper_lookup establishes for the current
+   source -- the serialization of the inline structure validates against its inline schema, for every mapper tree
+   (holder renamed or not, nested keys renamed or not). *)
+Theorem C08_inline_complete : forall ei re_match re_search,
+    (forall p s, re_match p s = true -> re_search p s = true) ->
+    forall e D kS kR t key c attrs j fuel n,
+      kS = kR ->
+      find_class e (c_name c) = Some c ->
+      wrapper_form c = false ->
+      forallb (fun d => cfrag ei (fd_field d)) (c_fields c) = true ->
+      nodup_str (map (fun d => rename (sub_renames kR t key) (fd_name d)) (c_fields c)) = true ->
+      Forall (attr_ok re_match e c) attrs ->
+      (forall r, In r (c_required c) -> alist_has attrs r = true) ->
+      (forall d, In d (c_fields c) -> fd_default d <> None -> alist_has attrs (fd_name d) = true) ->
+      (forall d, In d (c_fields c) -> (fdepth (fd_field d) <= n)%nat) ->
+      inline_ser ei re_match e kR t key fuel c attrs = Some j ->
+      valid4 re_search D (S n) (fix_dialect (inline_schema ei kS t key c)) j = true.
+Proof. exact inline_complete. Qed.
+Print Assumptions C08_inline_complete.
+
+(* the hypothesis kS = kR is needed, and only bites when the HOLDER is renamed: a holder "home_addr" renamed to
+   "homeAddr" whose inline keys are renamed through "home_addr._mapper" *)
+Definition cls_addr := cls "Addr" [fd "street_name" (FString no_strc) None; fd "zip" (FString no_strc) None] ["street_name"] false.
+Definition addr_tree (holder_to : string) : mtree :=
+  MT [(s2p "home_addr", s2p holder_to)]
+     [(s2p "home_addr", MT [(s2p "street_name", s2p "streetName")] [])].
+Example C08_inline_lookup_matters :
+  let attrs := [(s2p "street_name", PStr (s2p "main"))] in
+  let ser k t := inline_ser no_einfo always [cls_addr] k t (s2p "home_addr") 3 cls_addr attrs in
+  let ok kS kR t := match ser kR t with
+                    | Some j => valid4 always [] 5 (fix_dialect (inline_schema no_einfo kS t (s2p "home_addr") cls_addr)) j
+                    | None => false end in
+  ser ByAttrName (addr_tree "homeAddr") = Some (PDict [(PStr (s2p "streetName"), PStr (s2p "main"))]) /\
+  ok ByAttrName ByAttrName (addr_tree "homeAddr") = true /\
+  ok ByMappedName ByAttrName (addr_tree "homeAddr") = false /\      (* export reads "homeAddr._mapper": not found *)
+  ok ByMappedName ByAttrName (addr_tree "home_addr") = true.         (* holder not renamed: the two names coincide *)
+Proof. repeat split; vm_compute; reflexivity. Qed.
